@@ -662,7 +662,7 @@ pub fn exec(c: &Case) -> Outcome {
         let alive_at_end = match conn.open_channel(None) {
             Ok(ch) => {
                 let ok = ch.qos(0, 0, false).is_ok();
-                std::mem::forget(ch);
+                crate::run::bury(ch);
                 ok
             }
             Err(_) => false,
